@@ -75,6 +75,7 @@ impl Float for R {
     #[inline(never)] fn abs_sub(self, n: R) -> R { R((self.0 - n.0).max(0.0)) }
     #[inline(never)] fn hypot(self, n: R) -> R { R(self.0.hypot(n.0)) }
     #[inline(never)] fn atan2(self, n: R) -> R { R(self.0.atan2(n.0)) }
+    #[inline(never)] fn copysign(self, n: R) -> R { R(self.0.copysign(n.0)) }
     #[inline(always)] fn sin_cos(self) -> (R, R) { (self.sin(), self.cos()) }
     fn integer_decode(self) -> (u64, i16, i8) { self.0.integer_decode() }
 }
